@@ -26,17 +26,20 @@ if go test -vet=off -count=1 -run "$RUN" "./$PLACE" >/tmp/seed-$$.without 2>&1; 
 rm -f "$WT/$PLACE/zz_seeded_demo_test.go"
 git apply "$D/patch.diff"
 RES=""
+: > /tmp/seed-$$.res
 for c in $CHECKS; do
   out=$(cd /verif && VERIF_REPO="$WT" VERIF_OUT="$WT/.verif-out" bin/check "$c" quick 2>&1); rc=$?
   key=$(echo "$out" | grep "^  [^ ]" | head -1 | cut -c3-260 | sed 's/"/\\"/g')
   n=$(echo "$out" | grep -c "^VIOLATION property=$c")
-  RES="$RES{\"check\":\"$c\",\"exit\":$rc,\"violation_lines\":$n,\"first_finding\":\"$key\"},"
+  printf '%s\t%s\t%s\t%s\n' "$c" "$rc" "$n" "$(echo "$out" | grep "^  [^ ]" | head -1 | cut -c3-260)" >> /tmp/seed-$$.res
   echo "check $c: exit=$rc violations=$n $key"
 done
 echo "tests=$TESTS demo_with_change=$WITH demo_without_change=$WITHOUT"
-python3 - "$D" "$P" "$TESTS" "$WITH" "$WITHOUT" "[${RES%,}]" <<'PY'
+python3 - "$D" "$P" "$TESTS" "$WITH" "$WITHOUT" "/tmp/seed-$$.res" <<'PY'
 import json,sys,time
-d,p,t,w,wo,res=sys.argv[1:7]
+d,p,t,w,wo,resf=sys.argv[1:7]
+rows=[l.rstrip("\n").split("\t") for l in open(resf)]
+res=json.dumps([{"check":r[0],"exit":int(r[1]),"violation_lines":int(r[2]),"first_finding":r[3] if len(r)>3 else ""} for r in rows])
 json.dump({"property":p,"confirmed_at":time.strftime("%Y-%m-%dT%H:%M:%SZ",time.gmtime()),"repository_tests_with_change":t,"demo_with_change":w,"demo_without_change":wo,
  "how":"fresh worktree of /repo HEAD; git apply patch.diff; go build ./...; go test -vet=off -count=1 ./...; demo copied in, go test -run; git apply -R; demo again; checks run with VERIF_REPO=<worktree> bin/check <id> quick",
  "checks":json.loads(res)},open(d+"/confirmed.json","w"),indent=1)
